@@ -131,7 +131,15 @@ fn record(p: &Prog, which: u32, out: &mut Out) {
         out.stat("programs_without_answers");
     }
     out.push(p.line_f(fuel), line, fail, nt);
-    if which == 16 {
+    // How far domains are pruned, and which entailed constraints are dropped, depends on the order in which the
+    // propagators run (hash order in the implementation — cf. D21; the DESCRIBED SOLUTIONS do not: C09_order_independent_fd):
+    // the representation of a state is a function of the program only when at most ONE propagator is involved.
+    let props: usize = p.body.iter().map(|g| match g {
+        PG::InFd(..) | PG::Eq(..) => 0,
+        PG::LtFd(..) => 2, // ltfd posts two propagators (diseqfd and ltefd)
+        _ => 1,
+    }).sum();
+    if which == 16 && props <= 1 {
         // STATE-LEVEL correspondence: the same program run raw (the states its body goal produces, before
         // labelling and reification); of every delivered state the substitution of every program variable, the
         // finite-domain store and the constraint store are dumped and compared with the model's state — the
